@@ -338,12 +338,12 @@ def trace_validation(pid, tier, seed, V, tag):
     """impl -> spec: recorded executions on random types and values validated against Trace_Ser.tla"""
     from .cursor import split_runs
     # (thorough, whole structure kept - C03 / C18: 75 MB of events took TLC more than 25 minutes with 4000 runs)
-    runs, maxlen = (400, 40) if tier == "quick" else ((1500, 150) if len(TRACE_FILTER[pid][0]) > 4 else (4000, 150))
+    runs, maxlen = (400, 40) if tier == "quick" else ((1500, 150) if len(TRACE_FILTER[pid][0]) >= 4 else (4000, 150))
     raw = os.path.join(WORK, tag, "recorded.ndjson")
     # ... and a few runs whose outermost sequences have lengths around the usual buffer sizes (255 .. 8195 items,
     # multi-byte characters straddling every power of two)
     # (the serializer program of a sequence of 8000 items costs TLC tens of seconds: 80 long runs took over 25 minutes)
-    nlong = 16 if (tier == "quick" or len(TRACE_FILTER[pid][0]) > 4) else 24
+    nlong = 16 if (tier == "quick" or len(TRACE_FILTER[pid][0]) >= 4) else 24
     open(raw, "w").write(harness(["record", str(seed), str(runs), str(maxlen)], timeout=3000)
                          + harness(["record", str(seed + 17), str(nlong), "40", "long"], timeout=3000))
     keep, mine = TRACE_FILTER[pid]
